@@ -684,11 +684,15 @@ func setupHistory(h *hist) (api.ReadFilter, *fakeConn, context.Context, error) {
 	if err := streamfilter.GetStreamFilterManager().AddOrUpdateStreamFilterConfig(h.listener, fcfg); err != nil {
 		return nil, nil, nil, err
 	}
-	// connection-level context as server/handler.go builds it
+	return newProxyConn(h, h.listener, rname)
+}
+
+// connection-level context as server/handler.go builds it, the proxy's network filter on a fresh (fake) connection
+func newProxyConn(h *hist, listener, rname string) (api.ReadFilter, *fakeConn, context.Context, error) {
 	base := context.WithValue(context.Background(), histKey, h)
 	ctx := variable.NewVariableContext(base)
 	_ = variable.Set(ctx, types.VariableAccessLogs, []api.AccessLog{})
-	_ = variable.Set(ctx, types.VariableListenerName, h.listener)
+	_ = variable.Set(ctx, types.VariableListenerName, listener)
 	nf, err := api.CreateNetworkFilterChainFactory(v2.DEFAULT_NETWORK_FILTER, map[string]interface{}{
 		"downstream_protocol": string(protoName), "upstream_protocol": string(protoName), "router_config_name": rname,
 	})
